@@ -1,6 +1,9 @@
 SPECIFICATION Spec
 CONSTANTS
-  ShapeUniverse <- SelShapes
+  Mode = "sel"
+  UseBindings = {}
+  SitePatterns = {}
+  SelShapes <- MCSelShapes
   KeepTrace = TRUE
 INVARIANTS ImportedAtMostOnce LoadedBeforeUse ExactlyTheUsedOnes OnlyWhenNeeded Emit
 CHECK_DEADLOCK FALSE
